@@ -153,6 +153,9 @@ pub struct Report {
     /// free-list ids.  Padding bytes, slack after the last element and unreachable pages are left
     /// out (the library writes uninitialised padding, so raw bytes are not canonical).
     pub struct_hash: u128,
+    /// the same, but without anything that grows with the number of transactions: the transaction
+    /// id, the header slot and every insertion counter are left out (C10 closure search)
+    pub rel_hash: u128,
 }
 
 impl Report {
@@ -171,10 +174,24 @@ struct Walk<'a> {
     tree_pages: BTreeSet<u64>,
     h1: u64,
     h2: u64,
+    r1: u64,
+    r2: u64,
 }
 
 impl<'a> Walk<'a> {
     fn feed_u64(&mut self, v: u64) {
+        self.feed_abs(v);
+        self.feed_rel(v);
+    }
+
+    fn feed_rel(&mut self, v: u64) {
+        self.r1 = (self.r1 ^ v).wrapping_mul(0x2545_F491_4F6C_DD1D);
+        self.r1 ^= self.r1 >> 29;
+        self.r2 = (self.r2.rotate_left(23) ^ v).wrapping_mul(0x9E37_79B9_7F4A_7C15);
+        self.r2 ^= self.r2 >> 31;
+    }
+
+    fn feed_abs(&mut self, v: u64) {
         self.h1 = (self.h1 ^ v).wrapping_mul(0x2545_F491_4F6C_DD1D);
         self.h1 ^= self.h1 >> 29;
         self.h2 = (self.h2.rotate_left(23) ^ v).wrapping_mul(0x9E37_79B9_7F4A_7C15);
@@ -293,7 +310,13 @@ impl<'a> Walk<'a> {
                     let val = &run[kstart + ks..vend];
                     self.feed_u64(nt as u64);
                     self.feed(&key);
-                    self.feed(val);
+                    if nt == 1 && val.len() == 16 {
+                        // bucket value: root page in both hashes, insertion counter only in the absolute one
+                        self.feed_u64(u64_at(val, 0).unwrap());
+                        self.feed_abs(u64_at(val, 8).unwrap());
+                    } else {
+                        self.feed(val);
+                    }
                     if let Some(l) = last_key.as_ref() {
                         if *l >= key {
                             self.err(format!("keys not strictly ascending at page {} element {}: {} then {}", id, i, show(l), show(&key)));
@@ -408,9 +431,12 @@ pub fn check_with_meta(buf: &[u8], pagesize: u64, meta: &MetaRec) -> Report {
         rep.errors.push(format!("num_pages {} does not fit the file of {} bytes", meta.num_pages, buf.len()));
         return rep;
     }
-    let mut w = Walk { buf, ps: pagesize, num_pages: meta.num_pages, owner: BTreeMap::new(), errors: vec![], shape: (0, 0, 0), tree_pages: BTreeSet::new(), h1: 0x1234_5678_9ABC_DEF0, h2: 0x0FED_CBA9_8765_4321 };
-    for v in [meta.slot, meta.magic as u64, meta.version as u64, meta.pagesize, meta.root_page, meta.next_int, meta.num_pages, meta.freelist_page, meta.tx_id, meta.legacy as u64] {
+    let mut w = Walk { buf, ps: pagesize, num_pages: meta.num_pages, owner: BTreeMap::new(), errors: vec![], shape: (0, 0, 0), tree_pages: BTreeSet::new(), h1: 0x1234_5678_9ABC_DEF0, h2: 0x0FED_CBA9_8765_4321, r1: 0x1111_2222_3333_4444, r2: 0x5555_6666_7777_8888 };
+    for v in [meta.magic as u64, meta.version as u64, meta.pagesize, meta.root_page, meta.num_pages, meta.freelist_page, meta.legacy as u64] {
         w.feed_u64(v);
+    }
+    for v in [meta.slot, meta.next_int, meta.tx_id] {
+        w.feed_abs(v);
     }
     // header pages: page id / type of both slots belong to the layout
     for slot in 0..2u64 {
@@ -457,6 +483,7 @@ pub fn check_with_meta(buf: &[u8], pagesize: u64, meta: &MetaRec) -> Report {
     }
     rep.contents = root;
     rep.struct_hash = ((w.h1 as u128) << 64) | w.h2 as u128;
+    rep.rel_hash = ((w.r1 as u128) << 64) | w.r2 as u128;
     rep.live_pages = w.tree_pages.len() as u64 + rep.freelist_run.1;
     rep.tree_pages = w.tree_pages;
     rep.shape = w.shape;
